@@ -27,6 +27,7 @@ class Peer:
         self.k = int(config.get("k", 1))
         self.slack = bool(config.get("slack", False))
         self.uniform = bool(config.get("uniform", False))      # equal weight on the k nearest rows
+        self.tail = float(config.get("tail", 0) or 0)          # every other row: this fraction of the largest weight
         self.y_as = config.get("y_as", "matrix")
         self.log = []          # ('fit', fid, X, Y, params) / ('predict', fid, newdata, weights)
         self.forests = []
@@ -76,9 +77,11 @@ class Peer:
             Q = Q.reshape(-1, 1)
         N = len(forest.X)
         k = min(self.k, N)
-        W = np.zeros((len(Q), N), dtype=float)
         w = np.ones(k, dtype=float) if self.uniform else np.arange(k, 0, -1, dtype=float)
-        w = w / w.sum()
+        tailw = self.tail * w.max() if (self.tail and not self.uniform) else 0.0
+        norm = w.sum() + (N - k) * tailw
+        w = w / norm
+        W = np.full((len(Q), N), tailw / norm, dtype=float)
         for lo in range(0, len(Q), 512):        # bounded memory for very large queries
             q = Q[lo:lo + 512]
             D = ((forest.X[None, :, :] - q[:, None, :]) ** 2).sum(axis=2)
